@@ -476,6 +476,7 @@ int main(int argc, char **argv) {
           if (auto *Al = dyn_cast<AllocaInst>(&I)) { O << ",\"at\":" << jstr(tystr(Al->getAllocatedType())); }
           if (auto *SV = dyn_cast<ShuffleVectorInst>(&I)) { O << ",\"mask\":["; bool m = true; for (int x : SV->getShuffleMask()) { if (!m) O << ","; m = false; O << x; } O << "]"; }
           if (auto *EV = dyn_cast<ExtractValueInst>(&I)) { O << ",\"idx\":["; bool m = true; for (unsigned x : EV->indices()) { if (!m) O << ","; m = false; O << x; } O << "]"; }
+          if (auto *IV = dyn_cast<InsertValueInst>(&I)) { O << ",\"idx\":["; bool m = true; for (unsigned x : IV->indices()) { if (!m) O << ","; m = false; O << x; } O << "]"; }
           if (auto *LI2 = dyn_cast<LoadInst>(&I)) if (LI2->isVolatile()) O << ",\"vol\":true";
           if (auto *SI2 = dyn_cast<StoreInst>(&I)) if (SI2->isVolatile()) O << ",\"vol\":true";
           O << ",\"a\":["; for (unsigned a = 0; a < I.getNumOperands(); a++) { if (a) O << ","; O << enc(I.getOperand(a)); } O << "]";
